@@ -46,6 +46,7 @@ let () =
   let vbits = if Array.length Sys.argv > 1 then int_of_string Sys.argv.(1) else 15 in
   let variant = { M.fix_incr = vbits land 1 <> 0; fix_empty = vbits land 2 <> 0; fix_reset = vbits land 4 <> 0;
                   fix_init = vbits land 8 <> 0 } in
+  let fill = ref false in
   let cfg = ref None and st = ref None and cur = ref [] and handles = ref [||] and nh = ref 0 and unsound = ref false in
   let check_ws = not variant.M.fix_incr in
   let push h =
@@ -81,8 +82,21 @@ let () =
         let pools = if opt land 2 <> 0 then 3 else 1 in
         let c = { M.c_gran = zi g'; c_pools = zi pools; c_bsize = zi bs'; c_pad = (opt land 0x10 = 0);
                   c_imm = (opt land 8 <> 0); c_var = variant } in
+        fill := (opt land 4 <> 0);
         cfg := Some c; st := Some (M.init_state c); cur := (M.init_cstate c).M.cs_cur; handles := [||]; nh := 0; unsound := false;
         Printf.printf "H %d %d %d %d\n" (if M.is_initialized c then 1 else 0) pools g' bs'
+      | "I" :: b :: hint :: start :: end_ :: _n :: words ->
+        (* C18's model of BitVectorRangeIterator<uint64_t, b>: all ranges *)
+        let rs = M.ranges (zi 64) (b <> "0") (List.map cz_of_string words) (cz_of_string start) (cz_of_string end_) (cz_of_string hint) in
+        print_string "I"; List.iter (fun (s, e) -> Printf.printf " %s %s" (string_of_cz s) (string_of_cz e)) rs; print_newline ()
+      | "K" :: op :: a :: b :: _n :: words ->
+        let ws = List.map cz_of_string words in
+        (match op with
+         | "i" -> (match M.bv_index_of (zi 64) ws (cz_of_string a) (b <> "0") with
+                   | Some r -> Printf.printf "K %s\n" (string_of_cz r) | None -> print_endline "K none")
+         | _ ->
+           let r = if op = "f" then M.bv_fill (zi 64) ws (cz_of_string a) (cz_of_string b) else M.bv_clear (zi 64) ws (cz_of_string a) (cz_of_string b) in
+           print_string "K"; List.iter (fun w -> Printf.printf " %s" (string_of_cz w)) r; print_newline ())
       | _ when !cfg = None -> print_endline "BAD"
       | _ when !unsound -> print_endline "U"
       | op :: args ->
@@ -90,6 +104,14 @@ let () =
         let s = match !st with Some s -> s | None -> assert false in
         let cs = { M.cs_st = s; cs_cur = !cur } in
         let ai k = int_of_string (List.nth args k) in
+        (* byte range the operation overwrites with the fill pattern (JitFill.fill_events / ev_bytes on the pre-state) *)
+        let fill_str o =
+          if not !fill then "" else
+          match M.fill_events c s o with
+          | e :: _ -> (match M.ev_bytes c s e with
+                       | Some ((_, off), len) -> Printf.sprintf " f %d %d" (iz off) (iz len)
+                       | None -> " f ? ?")
+          | [] -> " f 0 0" in
         (match op with
          | "A" ->
            let (s', r) = M.alloc_c c cs (cz_of_string (List.nth args 0)) in
@@ -122,6 +144,7 @@ let () =
            if h < 0 || h >= !nh || not !handles.(h).live then print_endline "R skip"
            else begin
              let hd = !handles.(h) in
+             let fo = fill_str (M.ORelease (zi hd.blk, zi hd.off)) in
              let (s', r) = M.release_c c cs (zi hd.blk) (zi hd.off) in
              (match r with
               | M.RRelease (e, id, del) ->
@@ -129,7 +152,7 @@ let () =
                 after_op ~blk:hd.blk s';
                 if del then Printf.printf "R %s %d deleted\n" (err_name e) hd.blk
                 else (match block_of s'.M.cs_st hd.blk with
-                      | Some b -> Printf.printf "R %s %d %s\n" (err_name e) hd.blk (digest b)
+                      | Some b -> Printf.printf "R %s %d %s%s\n" (err_name e) hd.blk (digest b) fo
                       | None -> Printf.printf "R %s %d deleted\n" (err_name e) hd.blk)
               | _ -> print_endline "R ?")
            end
@@ -138,13 +161,14 @@ let () =
            if h < 0 || h >= !nh || not !handles.(h).live then print_endline "S skip"
            else begin
              let hd = !handles.(h) in
+             let fo = fill_str (M.OShrink (zi hd.blk, zi hd.off, zi ns)) in
              let (s', r) = M.shrink_c c cs (zi hd.blk) (zi hd.off) (zi ns) in
              (match r with
               | M.RShrink (e, _, len) ->
                 if ns = 0 then hd.live <- false;
                 after_op ~blk:hd.blk s';
                 (match block_of s'.M.cs_st hd.blk with
-                 | Some b -> Printf.printf "S %s %d %d %s\n" (err_name e) (iz len) hd.blk (digest b)
+                 | Some b -> Printf.printf "S %s %d %d %s%s\n" (err_name e) (iz len) hd.blk (digest b) fo
                  | None -> Printf.printf "S %s %d %d deleted\n" (err_name e) (iz len) hd.blk)
               | _ -> print_endline "S ?")
            end
